@@ -168,7 +168,7 @@ pub fn child(p: &Params) {
 // parent: input generation
 
 const EXTREME: [&str; 14] = ["0", "-1", "-0", "99999999999", "18446744073709551615", "18446744073709551616", "-9223372036854775808", "9223372036854775807", "1e308", "1.5", "-99999999999999999999999", "null", "true", "\"5\""];
-const TEMPIDS: [&str; 8] = ["\"!A0\"", "\"!A99999999999\"", "\"!D99999999999\"", "\"!R7\"", "\"!A-1\"", "\"!A18446744073709551615\"", "\"!K3\"", "\"!\""];
+const TEMPIDS: [&str; 16] = ["\"!A0\"", "\"!A99999999999\"", "\"!D99999999999\"", "\"!R7\"", "\"!A-1\"", "\"!A18446744073709551615\"", "\"!K3\"", "\"!\"", "\"!É1\"", "\"!Ω2\"", "\"!😀0\"", "\"!A\"", "\"!AÉ\"", "\"!A1É\"", "\"!é\"", "\"!!A1\""];
 const TYPES: [&str; 13] = ["InternalRangedSelector", "TextSelector", "AnnotationSelector", "ResourceSelector", "DataSetSelector", "DataKeySelector", "AnnotationDataSelector", "MultiSelector", "CompositeSelector", "DirectionalSelector", "Annotation", "AnnotationData", "BeginAlignedCursor"];
 
 /// line based edits of a pretty-printed JSON document (keeps the order of fields, which matters to the reader)
